@@ -27,6 +27,7 @@ You can obtain one at http://mozilla.org/MPL/2.0/.
 
 #include "libfive/render/axes.hpp"
 #include "libfive/eval/tape.hpp"
+#include "libfive/verif.hpp"
 
 #include "../xtree.inl"
 
@@ -716,6 +717,7 @@ void assignIndicesWorker(LockFreeStack<N>& tasks,
         if (task.target == nullptr) {
             continue;
         }
+        LIBFIVE_VERIF_POINT(verif::SITE_INDEX_POP, task.target->isBranch() ? 1 : 0, 0, task.target);
 
         // If this is a tree which can be subdivided, then push each
         // subtree as a new task.
@@ -836,17 +838,22 @@ void assignIndicesWorker(LockFreeStack<N>& tasks,
             }
         }
 
+        LIBFIVE_VERIF_POINT(verif::SITE_INDEX_LEAF, 0, 0, task.target);
         SimplexTree<N>* t = nullptr;
         for (t = task.target->parent; t && t->pending-- == 0; t = t->parent)
         {
             // Walk up the tree here!
+            LIBFIVE_VERIF_POINT(verif::SITE_INDEX_PENDING, 1, 0, t);
         }
+        LIBFIVE_VERIF_ONLY(if (t != nullptr) {
+            verif::point(verif::SITE_INDEX_PENDING, 0, 0, t); })
 
         if (t == nullptr) {
             break;
         }
     }
 
+    LIBFIVE_VERIF_POINT(verif::SITE_INDEX_EXIT, cancel.load() ? 1 : 0, done.load() ? 1 : 0);
     done.store(true);
 }
 
